@@ -7,11 +7,24 @@ and both direct oracles live in harness/c05.py (shared model, shared machinery);
 schedules: every pattern of one design (success / fatal after 0..4 transient failures, five in a row) at every
 position of batches of up to three designs, random histories with high fault rates, and 2-worker parallel runs
 (joblib threads) in which the exception has to surface through joblib.
+
+The replacement design ("a freshly sampled design inside the bounds") is checked here on problems with MIXED
+parameter descriptions (red-team lesson: a gen_vector that lets `precision` / `parameter_type` of one parameter leak
+into the next is invisible when every parameter declares the same keys): every combination of no precision /
+precision 1, 0.5, 0.05, 1e-3 / parameter_type absent, real, integer / integer, float, negative, tiny, huge bounds / no
+bounds (initial_value only), in every order.  Each replacement is (a) checked coordinate by coordinate against the
+bounds of ITS OWN parameter by the direct oracle, with the slack C08 uses (1e-12, or that parameter's declared
+precision / 2, plus 4 ulp of the larger bound), and (b) compared with Model/Reroll.v `gen_vector_desc` evaluated in
+Coq (exact rationals) on the draws of random() that gen_vector consumed (`c06_reroll_run`).
 """
+import contextlib
+import copy
+import math
 import threading
 import time
+from fractions import Fraction
 
-from harness.core import nl, bl, ll, pl
+from harness.core import nl, bl, ll, pl, ql
 from harness import c05 as base
 
 PROP = "C06"
@@ -19,13 +32,21 @@ THEOREMS = {"Artap.Props.C06": [
     "C06_attempts_le_5", "C06_batch_attempts_le_5", "C06_job_protocol", "C06_failed_log_exact",
     "C06_stored_pair_after_reroll", "C06_stored_costs_belong_to_stored_vector", "C06_reroll_invariant",
     "C06_result_decided", "C06_five_failures_raise", "C06_four_failures_do_not_raise", "C06_fatal_propagates",
-    "C06_raise_leaves_batch_at_once"]}
+    "C06_raise_leaves_batch_at_once",
+    "C06_replacement_reads_own_keys", "C06_replacement_is_gen_vector", "C06_replacement_in_bounds", "C06_replacement_in_own_box",
+    "C06_integer_replacement_in_integer_bounds", "C06_retried_vectors_in_bounds", "C06_stored_vector_in_bounds"]}
 AXIOMS_OK = []
 TRUSTED = [
     "Coq 8.16.1 kernel, vm_compute for model evaluation (no native_compute)",
     "hand-written model Model/Job.v (shared with C05) tied to job.py / operators.py by this correspondence run",
-    "the objective (fault schedule), the constraint function and VectorAndNumbers.gen_vector are oracles: observed on the implementation "
-    "and given to the model as tapes; the theorems hold for every schedule and oracle",
+    "the objective (fault schedule) and the constraint function are oracles: observed on the implementation and given to the model as "
+    "tapes; the theorems hold for every schedule and oracle. In the retry-loop model the replacement design is an oracle tape too; the "
+    "replacement itself is modelled separately (Model/Reroll.v gen_vector_desc: which keys of which parameter description gen_vector "
+    "reads for each coordinate, over gen_number of Model/Variation.v, C08) and compared on every recorded replacement with the "
+    "implementation's vector in exact rationals on the recorded random() draws (regime R3: 4 ulp; one step / one unit more, counted, "
+    "where the quotient is within rounding error of a rounding tie or the number within rounding error of an integer before int())",
+    "random() is an oracle (draws recorded by wrapping artap.utils.random during gen_vector; 15 % of the mixed-description sessions "
+    "script extreme draws 0, 1 - 2^-53, 2^-53, 0.5); the theorems assume draws in [0, 1)",
     "exception classes are mapped to the model's outcomes by the harness: TimeoutError, RuntimeError and subclasses of RuntimeError "
     "(NotImplementedError, RecursionError) are Transient, every other class (ValueError, ZeroDivisionError, KeyError, ArithmeticError, "
     "OSError, a BaseException subclass) is Fatal",
@@ -34,8 +55,14 @@ TRUSTED = [
 ]
 ASSUMPTIONS = [
     "the constraint function, data_store.sync_individual and gen_vector do not raise; the objective does not modify the individual",
-    "that the replacement design lies inside the bounds is gen_vector's contract (C08); here it is checked by the direct oracle on the "
-    "recorded replacements and enters the theorems as the hypothesis of C06_reroll_invariant",
+    "'inside the bounds' is read as C08 reads it: every coordinate within 1e-12 (no declared precision) or half of its own parameter's "
+    "declared precision of its own parameter's [lb, ub] (gen_number rounds to a grid), plus 4 ulp of the larger bound for binary64; "
+    "proved in exact rationals (C06_replacement_in_bounds / _in_own_box / C06_stored_vector_in_bounds from C08's gen_number theorem), "
+    "checked on the implementation by the direct oracle coordinate by coordinate against the parameter's own description",
+    "parameters without 'bounds' (initial_value only) have no box to be inside of (modelled, compared, not checked by the oracle); "
+    "parameter_type 'integer' truncates with int() after rounding: with integer bounds the oracle requires [lb, ub], with non-integer "
+    "bounds there may be no design of that type in the box and the coordinate is skipped and counted (C08 excludes it too); the "
+    "theorem for truncated coordinates is 'an integer less than 1 from the box' and 'inside whenever the rounded number is'",
     "'at most five attempts' is per Job.evaluate call: a design left EMPTY by five failures gets five new attempts if the caller catches "
     "the RuntimeError and evaluates it again",
 ]
@@ -65,7 +92,7 @@ def serial_case(lab, rng, pats, cfg_force=None, again=True):
             break
     cfg = base.rand_cfg(rng, **(cfg_force or {}))
     cfg["schedule"] = sched
-    s = base.Session(lab, cfg)
+    s = Session06(lab, cfg)
     pool = [base.rand_vec(rng, cfg["dim"]) for _ in range(2)]
     ids = [s.mk(base.rand_vec(rng, cfg["dim"], pool)) for _ in pats]
     s.evaluate(ids)
@@ -76,16 +103,489 @@ def serial_case(lab, rng, pats, cfg_force=None, again=True):
     return s.freeze()
 
 
+# ==============================================================================================================
+# mixed parameter descriptions and the replacement design
+# ==============================================================================================================
+GEN_HEADER = ("From Artap Require Import Model.Reroll Run.C06Run.\nFrom Coq Require Import List ZArith QArith.\nImport ListNotations.\n")
+TOL_DEFAULT = 1e-12
+ONE_BELOW = 1.0 - 2.0 ** -53
+
+PRECS = [None, 1, 0.5, 0.05, 1e-3]
+PTYPES = [None, "real", "integer"]
+BOUNDS = {"int": [(10, 60), (0, 5), (1, 2)],
+          "float": [(0.2, 0.4), (0.25, 3.75), (-0.75, 0.5)],
+          "negative": [(-10, -1), (-7.5, -2.25), (-5, -1)],
+          "tiny": [(1e-9, 2e-9), (0.3, 0.3 + 1e-9), (1e-13, 3e-13)],
+          "huge": [(-1e15, 1e15), (1e6, 1e12), (0.0, 1e150)],       # squares stay finite in the scripted objective
+          "none": [2.0, 4, 0.3, -4.0]}            # no 'bounds' key: gen_vector samples [initial_value / 2, 3 initial_value / 2]
+KINDS = [(b, pr, pt) for b in BOUNDS for pr in PRECS for pt in PTYPES]
+
+
+def declares(kind):
+    """does a description of this kind declare something that a later parameter could wrongly inherit?"""
+    return kind[1] is not None or kind[2] == "integer"
+
+
+def make_param(rng, kind):
+    """one parameter description as a hashable tuple of (key, value) items, keys in random order"""
+    b, prec, ptype = kind
+    items = []
+    if b == "none":
+        items.append(("initial_value", rng.choice(BOUNDS[b])))
+    else:
+        items.append(("bounds", rng.choice(BOUNDS[b])))
+        if rng.random() < 0.2:
+            items.append(("initial_value", rng.choice([0.0, 1.0, 1e3])))        # present but not read
+    if prec is not None:
+        items.append(("precision", prec))
+    if ptype is not None:
+        items.append(("parameter_type", ptype))
+    rng.shuffle(items)
+    return tuple(items)
+
+
+def spec_params(spec):
+    out = []
+    for i, items in enumerate(spec):
+        p = {"name": "x%d" % i}
+        for k, v in items:
+            p[k] = list(v) if k == "bounds" else v
+        out.append(p)
+    return out
+
+
+def rand_spec(rng, dim):
+    return tuple(make_param(rng, rng.choice(KINDS)) for _ in range(dim))
+
+
+def start_vector(rng, spec):
+    """a design the caller submits: inside each parameter's own box (ints for integer-typed parameters)"""
+    v = []
+    for items in spec:
+        p = dict(items)
+        if "bounds" in p:
+            lb, ub = p["bounds"]
+            x = rng.choice([lb, ub, lb + rng.choice([0.25, 0.5, 0.75]) * (ub - lb)])
+        else:
+            x = p["initial_value"]
+        if p.get("parameter_type") == "integer" and abs(x) < 2 ** 50:
+            x = int(x)
+        v.append(float(x))
+    return v
+
+
+def ulp_of(*xs):
+    return math.ulp(max(abs(float(x)) for x in xs))
+
+
+def integral(x):
+    return float(x) == math.floor(float(x))
+
+
+def outside_own_box(x, p):
+    """the property's clause for one coordinate of a replacement design and the description of ITS parameter (as
+    the user wrote it): None when inside [lb, ub] up to the slack C08 uses, 'skipped: ...' when the description is
+    outside the property, else a description of the violation"""
+    if isinstance(x, bool) or not isinstance(x, (int, float)) and type(x).__name__ not in ("float64", "float32", "int64", "int32"):
+        return "not a real number: %r" % (x,)
+    if isinstance(x, float) and (math.isnan(x) or math.isinf(x)):
+        return "not a finite number: %r" % (x,)
+    if "bounds" not in p:
+        return "skipped: no bounds declared"
+    lb, ub = p["bounds"]
+    if p.get("parameter_type") == "integer" and not (integral(lb) and integral(ub)):
+        return "skipped: integer-typed parameter with non-integer bounds (no design of that type in the box; C08 excludes it)"
+    prec = p.get("precision")
+    t = Fraction(prec) / 2 if prec else Fraction(TOL_DEFAULT)
+    t += 4 * Fraction(ulp_of(lb, ub))
+    X = Fraction(x)
+    if X < Fraction(lb) - t:
+        return "below its lower bound %r by %.3g" % (lb, float(Fraction(lb) - X))
+    if X > Fraction(ub) + t:
+        return "above its upper bound %r by %.3g" % (ub, float(X - Fraction(ub)))
+    return None
+
+
+def enc_pdesc(p):
+    b = "(Some (%s, %s))" % (ql(p["bounds"][0]), ql(p["bounds"][1])) if "bounds" in p else "None"
+    iv = p.get("initial_value", 0)
+    pr = "(Some %s)" % ql(p["precision"]) if "precision" in p else "None"
+    return "(mk_pd %s %s %s %s)" % (b, ql(iv), pr, bl(p.get("parameter_type") == "integer"))
+
+
+class Lab06(base.Lab):
+    """base.Lab + Problems built from a mixed parameter specification (cfg['pstyle'] = a spec tuple)"""
+
+    def __init__(self, ctx):
+        super().__init__(ctx)
+        import artap.utils as utils
+        self.utils = utils
+        self.real_random = utils.random
+        self.spec_cache = {}
+
+    def problem_for(self, dim, crit, pstyle, private=False):
+        if not isinstance(pstyle, tuple):
+            return super().problem_for(dim, crit, pstyle, private)
+        key = (tuple(crit), pstyle, self.spec_serial if private else 0)
+        if private:
+            self.spec_serial += 1
+        if key not in self.spec_cache:
+            params = spec_params(pstyle)
+            costs = []
+            for j, c in enumerate(crit):
+                d = {"name": "F%d" % j}
+                if c is not None:
+                    d["criteria"] = c
+                costs.append(d)
+            with contextlib.redirect_stderr(base.io.StringIO()):
+                p = self.ScriptedProblem(parameters=params, costs=costs)
+            p.logger.setLevel(self.logging.CRITICAL)
+            self.spec_cache[key] = (p, self.DummyAlgorithm(p))
+            self.pristine[id(p)] = copy.deepcopy(params)
+            if len(self.spec_cache) > 400:                       # working directories are removed as we go
+                self.drop_specs()
+        return self.spec_cache[key]
+
+    spec_serial = 1
+
+    def drop_specs(self):
+        for p, _ in list(self.spec_cache.values()):
+            self.discard(p)
+        self.spec_cache.clear()
+
+    def discard(self, problem):
+        super().discard(problem)
+        for k in [k for k, v in self.spec_cache.items() if v[0] is problem]:
+            del self.spec_cache[k]
+
+
+class RollTap:
+    """mixin for base.Session / base.ParSession: every gen_vector call made for a retry is recorded together with the
+    draws of random() it consumed (artap.utils.random is wrapped while the session runs; per thread)"""
+
+    def init_tap(self):
+        self.rolls = []                      # {"draws": [...], "vector": [...], "own_parameters": bool}
+        self.tls = threading.local()
+
+    def tap_random(self):
+        session, real, src = self, self.lab.real_random, self.cfg.get("draw_source")
+
+        def random():
+            d = getattr(session.tls, "draws", None)
+            if d is None:
+                return real()
+            r = src() if src is not None else real()
+            d.append(r)
+            return r
+        return random
+
+    @contextlib.contextmanager
+    def patched(self):
+        u = self.lab.utils
+        saved = u.random
+        u.random = self.tap_random()
+        try:
+            with super().patched():
+                yield
+        finally:
+            u.random = saved
+
+    def sample(self, cls, design_parameters):
+        real = self.lab.real_gen_vector.__func__
+        self.tls.draws = []
+        try:
+            v = real(cls, design_parameters)
+        finally:
+            draws, self.tls.draws = self.tls.draws, None
+        self.rolls.append({"draws": draws, "vector": list(v), "own_parameters": design_parameters is self.problem.parameters})
+        return v
+
+    def gen_vector_wrapper(self):
+        session = self
+        real = self.lab.real_gen_vector.__func__
+        parallel = isinstance(self, base.ParSession)
+
+        def gen_vector(cls, design_parameters):
+            if parallel:
+                if getattr(session.local, "session", None) is not session:
+                    return real(cls, design_parameters)                 # a thread that is not working for this session
+                v = session.sample(cls, design_parameters)
+                with session.lock:
+                    session.drolls.setdefault(getattr(session.local, "did", -1), []).append([float(x) for x in v])
+                    session.tape.append([float(x) for x in v])
+                return v
+            if session.in_generate:                                      # a generator sampling its designs, not a retry
+                return real(cls, design_parameters)
+            v = session.sample(cls, design_parameters)
+            session.tape.append([float(x) for x in v])
+            session.tape_at.append(len(session.calls))
+            return v
+        return classmethod(gen_vector)
+
+
+class Session06(RollTap, base.Session):
+    def __init__(self, lab, cfg):
+        base.Session.__init__(self, lab, cfg)
+        self.init_tap()
+
+    def oracle_jobs(self, entry, ids, before, n0, f0, t0, exc):
+        k0 = len(self.failures)
+        super().oracle_jobs(entry, ids, before, n0, f0, t0, exc)
+        # the bounds of a replacement are checked coordinate by coordinate, with the property's slack, by check_rolls
+        self.failures[k0:] = [f for f in self.failures[k0:] if f[1] != "replacement design outside the bounds"]
+
+
+class ParSession06(RollTap, base.ParSession):
+    def __init__(self, lab, cfg, patterns, processes=2, nest=None):
+        base.ParSession.__init__(self, lab, cfg, patterns, processes=processes, nest=nest)
+        self.init_tap()
+
+
+def check_rolls(ctx, s, acc, label):
+    """direct oracle + one exact-rational model case per replacement design sampled during session `s`"""
+    params = s.bounds                                     # the parameter descriptions as the user wrote them
+    h = acc["hist"]
+    inp = {"parameters": params, "entry": label}
+    if s.problem.parameters != params and not acc.get("reported_modified"):
+        acc["reported_modified"] = True
+        ctx.mismatches.append({"what": "the problem's parameter descriptions were modified during evaluation", "case": dict(inp, now=s.problem.parameters)})
+    for roll in s.rolls:
+        v, draws = roll["vector"], roll["draws"]
+        h["replacements"] += 1
+        case = dict(inp, draws=draws, replacement=[x if isinstance(x, (int, float)) else repr(x) for x in v])
+
+        def fail(what, **kw):
+            if len(ctx.oracle_failures) < 40:
+                ctx.oracle_failures.append({"what": what, "input": dict(case, **kw), "observed": case["replacement"],
+                                            "required": "every coordinate within 1e-12 (or half of its own declared precision) of its own parameter's bounds",
+                                            "match": {"kind": "replacement_out_of_bounds"}})
+        if not roll["own_parameters"]:
+            ctx.mismatches.append({"what": "the replacement was not sampled from problem.parameters", "case": case})
+        if len(v) != len(params):
+            fail("replacement design has %d coordinates for %d parameters" % (len(v), len(params)))
+            continue
+        ok = True
+        for i, (x, p) in enumerate(zip(v, params)):
+            why = outside_own_box(x, p)
+            h["coordinates"] += 1
+            if why is None:
+                h["coordinates_checked"] += 1
+            elif why.startswith("skipped"):
+                h["coordinates_" + ("without_bounds" if "no bounds" in why else "integer_typed_noninteger_bounds")] += 1
+            else:
+                ok = False
+                fail("replacement design outside the bounds: coordinate %d (%s) = %r is %s" % (i, p["name"], x, why), coordinate=i, parameter=p)
+        if not ok:
+            continue
+        if len(draws) != len(params):
+            acc["gcases"].append("{| r_params := %s; r_draws := %s; r_impl := %s; r_tol := %s |}" % (
+                ll(params, enc_pdesc), ll(draws, ql), ll(v, ql), ll([0] * len(v), ql)))
+            acc["gexpected"].append("0%nat")
+            acc["gmeta"].append(case)
+            continue
+        tols = []
+        for i, (x, p, r) in enumerate(zip(v, params, draws)):
+            if "bounds" in p:
+                lb, ub = Fraction(p["bounds"][0]), Fraction(p["bounds"][1])
+            else:
+                lb, ub = Fraction(p["initial_value"]) / 2, Fraction(p["initial_value"]) * 3 / 2
+            prec = p.get("precision")
+            pe = Fraction(prec) if prec else Fraction(TOL_DEFAULT)
+            xq = Fraction(r) * (ub - lb) + lb
+            yq = xq / pe
+            u = Fraction(ulp_of(lb, ub, x))
+            t = 4 * u
+            err_y = 3 * u / pe + abs(yq) * Fraction(2) ** -51
+            if abs(yq - math.floor(yq) - Fraction(1, 2)) <= err_y:
+                t += pe
+                h["near_tie_coordinates"] += 1
+            if p.get("parameter_type") == "integer" and prec is None:
+                h["truncated_coordinates"] += 1
+                mq = round(yq) * pe                      # the model's number before int(): half-even, as Python's round
+                if abs(mq - round(mq)) <= t:
+                    t += 1
+                    h["near_integer_before_truncation"] += 1
+            h["declared_precision" if prec else "default_precision"] += 1
+            tols.append(t)
+        acc["gcases"].append("{| r_params := %s; r_draws := %s; r_impl := %s; r_tol := %s |}" % (
+            ll(params, enc_pdesc), ll(draws, ql), ll(v, ql), ll(tols, ql)))
+        acc["gexpected"].append("0%nat")
+        acc["gmeta"].append(case)
+        kinds = tuple(tuple(sorted((k, str(val)) for k, val in p.items() if k != "name")) for p in params)
+        ctx.count(("reroll", kinds), nontrivial=len({tuple(k for k, _ in kd) for kd in kinds}) > 1)
+        if len(params) > 1 and h["replacements"] % 97 == 5:
+            ctx.sample({"parameters": params, "draws": draws, "replacement": case["replacement"]})
+
+
+def mixed_serial(lab, rng, spec, pats, draw_source=None, crit=None):
+    """serial_case on a Problem with the given parameter descriptions, designs starting inside their boxes"""
+    sched = []
+    for p in pats:
+        sched += pattern_codes(rng, p)
+        if raises(p):
+            break
+    cfg = base.rand_cfg(rng, dim=len(spec), pstyle=spec, extra=0, ncons=rng.choice([0, 0, 1]))
+    if crit is not None:
+        cfg["crit"] = list(crit)                 # same criteria = same cached Problem object
+    cfg["schedule"] = sched
+    cfg["draw_source"] = draw_source
+    s = Session06(lab, cfg)
+    ids = [s.mk(start_vector(rng, spec), {"vrep": "int"} if rng.random() < 0.3 else None) for _ in pats]
+    s.evaluate(ids)
+    if raises(pats[-1]) or rng.random() < 0.3:
+        s.evaluate(ids)
+    return s.freeze()
+
+
+def interleaved06(lab, rng, ctx, out, hist, acc, nested=False, mixed=True):
+    """base.interleaved_case for problems with mixed parameter descriptions: one Algorithm.evaluate on distinct new
+    designs (plus designs that must be skipped) with max_processes = 2, or serial with nested evaluations started
+    from inside the objective; compared design by design; the replacements are checked against their own bounds"""
+    TRANSIENT, FATAL, vkey, same_vec = base.TRANSIENT, base.FATAL, base.vkey, base.same_vec
+    n = rng.choice([2, 3, 4, 6])
+    pats = [rng.choice(design_patterns()) if rng.random() < (0.25 if nested else 0.5) else ("ok", rng.choice([0, 1, 1, 2])) for _ in range(2 * n)]
+    dim = rng.choice([2, 2, 3, 4])
+    spec = rand_spec(rng, dim) if mixed else 0
+    cfg = base.rand_cfg(rng, pstyle=spec, extra=0, **({"dim": dim} if mixed else {}))
+    dim = cfg["dim"]
+    vec = (lambda: start_vector(rng, spec)) if mixed else (lambda: base.rand_vec(rng, dim, pool))
+    patterns, nest = {}, {}
+    s = ParSession06(lab, cfg, patterns, processes=1 if nested else 2, nest=nest)
+    ids = []
+    pool = [base.rand_vec(rng, dim) for _ in range(2)]
+    for p in pats[:n]:
+        i = s.mk(vec(), {"precision": rng.choice([7, 7, 3, 10])} if rng.random() < 0.3 else None)
+        patterns[i] = pattern_codes(rng, p)
+        ids.append(i)
+    inner = []
+    if nested:
+        for p, outer in zip(pats[n:], ids):
+            if rng.random() < 0.7:
+                i = s.mk(vec())
+                patterns[i] = pattern_codes(rng, p)
+                nest[outer] = i
+                inner.append(i)
+    skipped = []
+    for st in rng.sample(["EVALUATED", "IN_PROGRESS", "FAILED"], rng.choice([0, 1, 2])):
+        skipped.append(s.mk(vec(), base.junk_preset(rng, st, len(cfg["crit"]))))
+    batch = ids + skipped
+    rng.shuffle(batch)
+    nest_plan = dict(nest)
+    before, exc = s.run_parallel(batch)
+    for i in inner:
+        before[i] = (s.dcalls[i][0][0] if s.dcalls.get(i) else [], [], [], "EMPTY", False, 7)
+    ids = ids + inner
+    label = "nested" if nested else "parallel"
+    hist[label + "_runs"] = hist.get(label + "_runs", 0) + 1
+    inp = {"batch": batch, "patterns": {str(k): v for k, v in patterns.items()}, "processes": 1 if nested else 2,
+           "nested_evaluations": {str(k): v for k, v in nest_plan.items()}, "parameters": s.bounds,
+           "states_before": {str(i): before[i][3] for i in before}}
+
+    def fail(what, **kw):
+        if len(ctx.oracle_failures) < 40:
+            ctx.oracle_failures.append({"what": label + ": " + what, "input": dict(inp, **kw),
+                                        "match": {"kind": "job_" + label, "clause": what[:50]}})
+    # ---- direct oracle
+    raised = {d: e for d, e in s.dresult.items() if e is not None and d not in inner}
+    if raised and exc is None:
+        fail("a job raised %s but Algorithm.evaluate returned normally" % ", ".join(type(e).__name__ for e in raised.values()))
+    if exc is not None and not any(type(exc) is type(e) for e in raised.values()):
+        fail("the caller saw %r, which no job raised" % (exc,))
+    for i in skipped:
+        if s.dcalls.get(i):
+            fail("objective invoked for a design that is %s" % before[i][3], design=i)
+    trans = sorted(vkey(c[0]) for cs in s.dcalls.values() for c in cs if c[1] in TRANSIENT)
+    failed = sorted(vkey(s.snap(f)[0]) for f in s.problem.failed)
+    if trans != failed:
+        fail("problem.failed is not the multiset of the vectors of the failed attempts", failed=[s.snap(f)[0] for f in s.problem.failed])
+    if any(f.state.name != "FAILED" for f in s.problem.failed):
+        fail("a failed copy is not marked FAILED")
+    for d, cs in s.dcalls.items():
+        if d not in ids:
+            continue
+        ind = s.objs[d]
+        hist[label + "_designs"] = hist.get(label + "_designs", 0) + 1
+        codes = [c[1] for c in cs]
+        res = s.dresult.get(d, "unfinished")
+        if len(cs) > 5:
+            fail("%d attempts for one design" % len(cs), design=d)
+        if any(c not in TRANSIENT for c in codes[:-1]):
+            fail("the job went on after an attempt that did not fail transiently", design=d, outcomes=codes)
+        rolls = s.drolls.get(d, [])
+        if len(rolls) != sum(1 for c in codes if c in TRANSIENT):
+            fail("%d replacement designs for %d transient failures" % (len(rolls), sum(1 for c in codes if c in TRANSIENT)), design=d)
+        for k in range(1, len(cs)):
+            if k - 1 < len(rolls) and not same_vec(cs[k][0], rolls[k - 1]):
+                fail("the retry was not made with the freshly sampled design", design=d)
+        last = codes[-1]
+        if last == "ok":
+            if res is not None:
+                fail("job raised %r although its last attempt succeeded" % (res,), design=d)
+            elif ind.state.name != "EVALUATED":
+                fail("design is %s after a successful attempt" % ind.state.name, design=d)
+            else:
+                s.check_pair(ind, "C06")
+        elif last in FATAL:
+            if res is not cs[-1][2]:
+                fail("a non-transient %s did not propagate out of the job at once (job result %r)" % (type(cs[-1][2]).__name__, res), design=d)
+            elif ind.state.name == "EVALUATED":
+                fail("design marked evaluated although its evaluation raised", design=d)
+        else:
+            if len(cs) == 5 and type(res) is not RuntimeError:
+                fail("five consecutive failures did not raise RuntimeError (job result %r)" % (res,), design=d)
+            elif len(cs) < 5:
+                fail("design given up after %d failed attempt(s)" % len(cs), design=d, job_result=repr(res))
+    for g, what, detail in s.failures:
+        if g == "C06":
+            fail(what, **detail)
+    check_rolls(ctx, s, acc, label)
+    # ---- one model case per design that was started
+    enc_vec, enc_snap, enc_result = base.enc_vec, base.enc_snap, base.enc_result
+    table = ll(list(s.cons.values()), lambda p: pl(enc_vec(p[0]), enc_vec(p[1])))
+    store_by = {}
+    for o, snap in s.store:
+        store_by.setdefault(s.id_of(o), []).append(snap)
+    for d in ids:
+        cs = s.dcalls.get(d)
+        if not cs or d not in s.dresult:
+            hist[label + "_not_started"] = hist.get(label + "_not_started", 0) + 1
+            continue
+        outs = []
+        for v, code, e in cs:
+            outs.append("Transient" if code in TRANSIENT else "(Fatal %s)" % nl(FATAL[code][1]) if code in FATAL
+                        else "(Ok %s)" % enc_vec(s.represent(s.F(v))))
+        case = "par_design_case %s %s %s %s %s %s" % (ll(s.signs, bl), enc_vec(before[d][0]), nl(before[d][5]), ll(outs), table,
+                                                     ll(s.drolls.get(d, []), enc_vec))
+        res = base.Session.classify(s.dresult[d])
+        expected = pl(ll(["RUnit", "(RRes %s)" % enc_result(res)]),
+                      ll([enc_snap(s.snap(s.objs[d]))]), "[]",
+                      ll([enc_snap((c[0], [], [], "FAILED", False, 7)) for c in cs if c[1] in TRANSIENT]),
+                      ll([pl(nl(0), enc_snap(x)) for x in store_by.get(d, [])]),
+                      ll([pl(nl(0), enc_vec(c[0])) for c in cs]), "true")
+        out.append((case, expected, {label: True, "design": d, "outcomes": [c[1] for c in cs], "parameters": s.bounds,
+                                     "vectors": [c[0] for c in cs], "result": str(res), "final": s.snap(s.objs[d])}))
+        ctx.count((label, "mixed", tuple(c[1] for c in cs), str(res), d in inner), nontrivial=nested or len(cs) > 1)
+    if mixed or not nested:
+        lab.discard(s.problem)
+
+
 def run(ctx):
-    lab = base.Lab(ctx)
+    lab = Lab06(ctx)
     rng = ctx.rng
     cases, expected, meta = [], [], []
     hist = base.new_hist()
     hist.update({"patterns": {}})
     pats = design_patterns()
+    acc = {"gcases": [], "gexpected": [], "gmeta": [],
+           "hist": {"replacements": 0, "coordinates": 0, "coordinates_checked": 0, "coordinates_without_bounds": 0,
+                    "coordinates_integer_typed_noninteger_bounds": 0, "near_tie_coordinates": 0, "truncated_coordinates": 0,
+                    "near_integer_before_truncation": 0, "declared_precision": 0, "default_precision": 0,
+                    "mixed_description_sessions": 0, "ordered_kind_pairs": 0, "scripted_extreme_draws": 0}}
 
     def add(s, key):
         base.collect(ctx, s, "C06", cases, expected, meta, hist)
+        if isinstance(s, RollTap):
+            check_rolls(ctx, s, acc, key[0])
         ctx.count(key, nontrivial=True)
         if len(s.calls) >= 5 and len(s.objs) <= 3:
             ctx.sample(s.meta())
@@ -121,6 +621,50 @@ def run(ctx):
                         continue                     # the batch stops at the first design: one representative is enough
                     note([a, b, c])
                     add(serial_case(lab, rng, [a, b, c], again=rng.random() < 0.5), ("triple_all", a, b, c))
+    # ---- mixed parameter descriptions: the replacement design against the bounds of its own parameters
+    rerolling = [p for p in pats if p != ("ok", 0) and p != ("fatal", 0)]
+    def extreme():
+        acc["hist"]["scripted_extreme_draws"] += 1
+        return rng.choice([0.0, ONE_BELOW, 0.5, 2.0 ** -53, 0.25, 0.75]) if rng.random() < 0.5 else rng.random()
+
+    def mixed(spec, ps, key):
+        truncating = any(dict(it).get("parameter_type") == "integer" and "precision" not in dict(it) for it in spec)
+        src = extreme if (not truncating and rng.random() < 0.15) else None
+        acc["hist"]["mixed_description_sessions"] += 1
+        note(ps)
+        s = mixed_serial(lab, rng, spec, ps, src)
+        add(s, key)
+        if rng.random() < 0.3:                   # the same long-lived Problem / Algorithm / Job in a second history
+            ps2 = [rng.choice(rerolling)]
+            note(ps2)
+            add(mixed_serial(lab, rng, spec, ps2, src, crit=s.cfg["crit"]), key + ("again",))
+        lab.discard(s.problem)
+
+    # every kind of description in first and in second position, next to a description that differs in what it declares
+    # (thorough: every ordered pair of a kind that declares a precision / integer type and one that does not, and every kind twice)
+    quiet = [k for k in KINDS if not declares(k)]
+    loud = [k for k in KINDS if declares(k)]
+    if ctx.thorough:
+        kind_pairs = [(a, b) for a in KINDS for b in KINDS if declares(a) != declares(b) or a == b]
+    else:
+        kind_pairs = []
+        for k in KINDS:
+            other = rng.choice(quiet if declares(k) else loud)
+            kind_pairs += [(k, other), (other, k)]
+    for a, b in kind_pairs:
+        spec = (make_param(rng, a), make_param(rng, b))
+        if rng.random() < 0.25:                                  # a third parameter before, between or after
+            third = make_param(rng, rng.choice(KINDS))
+            j = rng.randrange(3)
+            spec = spec[:j] + (third,) + spec[j:]
+        acc["hist"]["ordered_kind_pairs"] += 1
+        mixed(spec, [("ok", rng.choice([1, 1, 2, 4]))], ("mixed_pair", a, b))
+    # random descriptions of 1..5 parameters under every job pattern that re-rolls
+    for k in range(ctx.pick(120, 1500)):
+        spec = rand_spec(rng, rng.choice([1, 2, 2, 3, 3, 4, 5]))
+        ps = [rng.choice(rerolling)] if rng.random() < 0.6 else [("ok", rng.choice([0, 1, 2])), rng.choice(rerolling)]
+        mixed(spec, ps, ("mixed", k))
+    lab.drop_specs()
     # random histories (evaluate / scalar / sweep, presets, aliasing) under heavy fault rates
     for k in range(ctx.pick(600, 8000)):
         s, kinds = base.random_history(lab, rng, fault_rate=rng.choice([0.2, 0.35, 0.5, 0.7]), fatal_rate=rng.choice([0.0, 0.03, 0.1]))
@@ -134,16 +678,30 @@ def run(ctx):
     # the same long-lived Job object re-entered from inside the objective (nested evaluation of another design)
     for k in range(ctx.pick(60, 600)):
         base.interleaved_case(lab, rng, ctx, par, hist, "C06", nested=True)
+    # both again on problems with mixed parameter descriptions (and with the replacement recorded draw by draw)
+    for k in range(ctx.pick(40, 300)):
+        interleaved06(lab, rng, ctx, par, hist, acc, nested=k % 3 == 2, mixed=k % 8 != 7)
+    lab.drop_specs()
     for c, e, m in par:
         cases.append(c)
         expected.append(e)
         meta.append(m)
     ctx.coq_compare("c06", HEADER, "job_case", "job_obs", "c06_run", "c06_obs_eqb", cases, expected, meta, shard=ctx.pick(80, 400))
+    ctx.coq_compare("c06_reroll", GEN_HEADER, "reroll_case", "nat", "c06_reroll_run", "Nat.eqb", acc["gcases"], acc["gexpected"], acc["gmeta"],
+                    shard=ctx.pick(200, 400))
+    hist["replacement_designs"] = acc["hist"]
+    for p, _ in list(lab.cache.values()):            # artap's atexit clean-up would meet directories that are already gone
+        lab.discard(p)
+    ctx.extra["near_boundary"] = acc["hist"]["near_tie_coordinates"] + acc["hist"]["near_integer_before_truncation"]
     ctx.rule = ("fault schedules over {ok, TimeoutError, RuntimeError, NotImplementedError, RecursionError | ValueError, ZeroDivisionError, "
                 "KeyError, ArithmeticError, OSError, BaseException subclass}: each of the 11 job patterns (success / fatal after 0..4 "
                 "transient failures, five in a row) alone and as first / middle / last design of a batch of three, pairs of patterns "
                 "(thorough: all pairs and triples), each followed by a second evaluate of the same batch; random histories with fault rate "
-                "0.2..0.7 incl. scalar queries and sweeps; 2-worker parallel runs compared design by design; every case is non-trivial "
+                "0.2..0.7 incl. scalar queries and sweeps; 2-worker parallel runs compared design by design; problems with MIXED parameter "
+                "descriptions (each of the 90 kinds {int, float, negative, tiny, huge bounds, no bounds} x {no precision, 1, 0.5, 0.05, "
+                "1e-3} x {no parameter_type, real, integer} in first and in second position next to a kind that differs in what it "
+                "declares - thorough: all 1962 ordered pairs of a declaring and a non-declaring kind or of a kind with itself -, random descriptions of 1..5 parameters, serial / parallel / nested), every "
+                "replacement design compared with the exact-rational model on its recorded draws; every case is non-trivial "
                 "except fault-free random histories; distinct = distinct (kind, patterns / outcome sequence, design sequence)")
     ctx.extra.update({"distribution": hist})
 
@@ -155,10 +713,16 @@ LEVEL_TEXT = ("Machine-checked Coq theorems over the state-machine model of Job.
               "problem.failed growing by exactly the transiently failed vectors in order over every history, stored costs belonging to the "
               "stored vector after re-rolls, five consecutive failures raising with the design left EMPTY while four do not, any other "
               "exception leaving at once with the design IN_PROGRESS and nothing appended to failed by that attempt, and the batch being "
-              "left at the raising design. The model is tied to job.py on every run by evaluating it in Coq on enumerated and random fault "
+              "left at the raising design; the replacement design is gen_vector of the problem's parameter descriptions, each coordinate "
+              "computed from the keys of its own description only (Model/Reroll.v) and therefore inside its own parameter's bounds up to "
+              "half of its own step (exact rationals, composed from C08's gen_number theorem), as are every retried vector and the stored "
+              "vector of a design evaluated after re-rolls. The model is tied to job.py / utils.py on every run by evaluating it in Coq on enumerated and random fault "
               "schedules (serial) and design by design on 2-worker parallel runs, comparing exception kind, call log, problem.failed, "
-              "every design's (vector, costs, costs_signed, state) and the sync log bit for bit.")
+              "every design's (vector, costs, costs_signed, state) and the sync log bit for bit, and every replacement design sampled on "
+              "problems with mixed parameter descriptions against the exact-rational gen_vector model on the recorded random() draws.")
 LEVEL_NOTE = ("Trusted: Coq kernel + vm_compute; the hand-written model and the Python harness (incl. the mapping of exception classes to "
-              "Transient / Fatal); objective, constraints and gen_vector are oracles (bounds of the replacement: direct oracle + hypothesis "
-              "of C06_reroll_invariant, gen_vector itself is C08). Parallel runs are compared per design; thread interleavings are C07. "
+              "Transient / Fatal); objective, constraints and random() are oracles. Bounds of the replacement: proved in exact rationals "
+              "(binary64 rounding of gen_number is covered by the 4-ulp term of the oracle / comparison tolerance, regime R3, not by a "
+              "theorem), direct oracle per coordinate against its own parameter with C08's slack; integer-typed parameters with "
+              "non-integer bounds and parameters without bounds are outside the clause (skipped and counted). Parallel runs are compared per design; thread interleavings are C07. "
               "Correspondence is enumerated for single designs / pairs (thorough: triples) and sampled beyond, the theorems are unbounded.")
